@@ -385,7 +385,9 @@ def index_lambda_to_high_level_op(expr: IndexLambda) -> HighLevelOp:
                                   if idx.name in inner_expr.bounds})
                         )
 
-    if _is_idx_lambda_broadcast_op(expr, inner_expr):
+    # (the un-stripped expression: a cast of a subscript, i.e. astype(), is
+    # not a plain broadcast of its operand)
+    if _is_idx_lambda_broadcast_op(expr, expr.expr):
         if isinstance(inner_expr, p.Subscript):
             return BroadcastOp(expr.bindings[inner_expr.aggregate.name])
         else:
